@@ -165,10 +165,19 @@ def gen_strip():
 
     # --- addWhitespaceElement ----------------------------------------------------------------------
     b = _norm(function_body(st, r"Stylesheet::addWhitespaceElement\s*\([^)]*\)\s*\{", "Stylesheet::addWhitespaceElement"))
-    m = need(lit("const XPath::eMatchScore theMatchScore=theTester.getMatchScore(); iterator i=m_whitespaceElements.begin(); while(i!=m_whitespaceElements.end()){ if(theMatchScore") + r"(>=|>|<=|<|==)" +
-             lit("(*i).getMatchScore()){ break; } else { ++i; } } m_whitespaceElements.insert(i,theTester); }") + "$", b,
-             "addWhitespaceElement: linear search, break on a score comparison, insert before")
-    facts["insert_cmp"] = m.group(1)
+    head = lit("const XPath::eMatchScore theMatchScore=theTester.getMatchScore(); iterator i=m_whitespaceElements.begin();")
+    tail = lit("m_whitespaceElements.insert(i,theTester); }") + "$"
+    cmp_rx = r"(?:theMatchScore(>=|>|<=|<|==)\(\*i\)\.getMatchScore\(\)|!\(theMatchScore(<|<=)\(\*i\)\.getMatchScore\(\)\))"
+    shapes = [  # the linear search written as while/if-break/else-advance, or as a for loop with a break
+        head + lit("while(i!=m_whitespaceElements.end()){ if(") + cmp_rx + lit("){ break; } else { ++i; } }") + tail,
+        head + lit("for(;i!=m_whitespaceElements.end();++i){ if(") + cmp_rx + lit("){ break; } }") + tail,
+    ]
+    m = None
+    for rx in shapes:
+        m = m or re.search(rx, b, re.S)
+    if not m:
+        raise AnchorError("anchor not found: addWhitespaceElement: linear search, break on a score comparison, insert before")
+    facts["insert_cmp"] = m.group(1) or {"<": ">=", "<=": ">"}[m.group(2)]
     if m.group(1) not in (">=", ">"):
         raise AnchorError("addWhitespaceElement: comparison %s not modelled" % m.group(1))
     # processPreserveStripSpace: tokens in order, one tester each
